@@ -585,6 +585,11 @@ class Machine:
             if e is not None:
                 return Adt(e, segs[-1], fields, names)
         dty = self.place_type(body, dest)
+        if dty is not None and len(segs) == 1 and not ops and self.reg is not None:
+            # unit variants of C-like enums are printed bare (`_40 = CREATE_OR_REPLACE;`): the destination type names the enum
+            e = self.reg.enum_def(type_head(dty))
+            if e is not None and any(v[0] == segs[0] for v in e.variants):
+                return Adt(e.full, segs[0], {})
         if dty is not None and len(segs) >= 2:
             dh = last_seg(type_head(dty))
             if dh == segs[-2] and dh != segs[-1]:
